@@ -143,8 +143,8 @@ def check_class(spec, mode, variant):
     helper_made = {id(g[3]) for g in rec.generated}
     direct = [c for c in obj.list_of_class_constraints if id(c) not in helper_made]
     for cond in active:
-        if cond.order != 'cross':
-            continue
+        if cond.order != 'cross' or matched[cond.name]:
+            continue          # (already generated through the generic two-list helper)
         t0 = time.time()
         want = [(a, b, doc_expr(cond, a, b)) for a in samples for b in t_samples]
         ok = len(direct) == len(want)
